@@ -317,7 +317,29 @@ def run_scenario(seed, shape, entry, delay_steps, tick, policy, depth,
             res['rerun_budget_exhausted'] = s.steps - s0 > 150000
             if background:
                 res['restart_log'] = successor_events(simnet.LOG, 5, 'C')
-            if same_again is not None and not res['rerun_budget_exhausted']:
+            # (only when the stop was used up by the run it was aimed at: a
+            # stop that reaches a job object after its run is over stays with
+            # the object and may cut its next run short -- which run such a
+            # request is "aimed at" the statement does not say)
+            used_up = not any(
+                e[0] == 'out' and e[1] == 'out' and e[2] == 1
+                for e in simnet.LOG[:res['log_at_job1_end']])
+            if same_again == -1 and shape in RERUN and used_up and \
+                    res['alive_at_stop'] and \
+                    not res['rerun_budget_exhausted']:
+                # the very same job object once more, left alone this time:
+                # it runs to its end
+                mark2 = len(simnet.LOG)
+                jc.add_job(job1, 'job1-same')
+                s0 = s.steps
+                s.block_until(lambda: not jc.has_jobs()
+                              or s.steps - s0 > 150000, 'same job, complete')
+                if s.steps - s0 <= 150000:
+                    res['same_complete_marker'] = any(
+                        e[0] == 'out' and e[1] == 'out' and e[2] == 1
+                        for e in simnet.LOG[mark2:])
+            elif same_again is not None and same_again >= 0 and \
+                    not res['rerun_budget_exhausted']:
                 # the very same job object once more, stopped early this time
                 # (its previous run ended by a stop, or by itself)
                 agent5 = jc.add_job(job1, 'job1-same')
@@ -433,6 +455,14 @@ def check(ctx, res, shape, entry, with_successor, replay):
                               '{}: {} issued by an instruction that started '
                               'after the stop'.format(desc, e[:3]), replay)
                 return False
+    if res.get('same_complete_marker') is False:
+        ctx.violation('f:same-job-object-again-incomplete',
+                      '{}: the same job object, started again after the stop '
+                      'and left alone, did not reach its end'.format(desc),
+                      replay)
+        return False
+    if res.get('same_complete_marker'):
+        ctx.count('same_job_reruns_completed')
     if res.get('same_done') is False:
         ctx.violation('c:not-terminated:rerun-of-the-same-job',
                       '{}: the same job object, started again and asked to stop '
@@ -548,7 +578,7 @@ def run_shard(ctx):
                                   rng.randint(1, 150), -rng.randint(1, 12),
                                   -rng.randint(1, 12)])
         same_again = rng.choice([None, None, 0, rng.randint(0, 30),
-                                 rng.randint(0, 200)])
+                                 rng.randint(0, 200), -1, -1])
         background = (entry in ('stop_job', 'stop_all') and not with_successor
                       and rng.random() < 0.35)
         if background:
